@@ -622,10 +622,14 @@ pub struct Gen { pub rng: SplitMix64, pub b: B, /// only constructs every backen
     /// a template with a placeholder inside `[..]` was generated (known finding C01-template-mark-in-brackets)
     pub bracket_mark: bool,
     /// caller-supplied raw text containing quoted text was generated (outside the plain-raw hypothesis of the C01 / C02 theorems)
-    pub raw_quoted: bool }
+    pub raw_quoted: bool,
+    /// C08: only caller-supplied text that is a single expression atom, no templates, complete clauses
+    pub plain: bool,
+    /// constructs whose rendering is a recorded finding
+    pub named_window: bool, pub multi_from_update: bool, pub do_nothing_no_keys: bool }
 
 impl Gen {
-    pub fn new(rng: SplitMix64, b: B, tame: bool) -> Self { Gen { rng, b, tame, bracket_mark: false, raw_quoted: false } }
+    pub fn new(rng: SplitMix64, b: B, tame: bool) -> Self { Gen { rng, b, tame, bracket_mark: false, raw_quoted: false, plain: false, named_window: false, multi_from_update: false, do_nothing_no_keys: false } }
     fn name(&mut self) -> String { if self.tame || self.rng.chance(3, 4) { self.rng.pick(PLAIN_NAMES).to_string() } else { self.rng.pick(NAMES).to_string() } }
     pub fn value(&mut self) -> Val {
         let r = &mut self.rng;
@@ -657,15 +661,19 @@ impl Gen {
         let ids = crate::c05::ops_of(self.b);
         if !self.tame && self.rng.chance(1, 40) { const CO: &[&str] = &["!=", "<=>", "||", "DIV", "IS DISTINCT FROM", "?|", "$"]; return Op::Custom(*self.rng.pick(CO)); }
         if !self.tame && self.rng.chance(1, 60) { return Op::Std(*self.rng.pick(&[30u32, 35, 44, 60, 63, 47])); } // possibly another backend's operator: the crate panics
-        loop { let i = *self.rng.pick(&ids); if i != 27 && i != 26 { return Op::Std(i); } }
+        // plain: BETWEEN / LIKE / AS only in their proper shapes (generated separately), never as a bare binary operator
+        loop { let i = *self.rng.pick(&ids); if i != 27 && i != 26 && !(self.plain && [2u32, 3, 8, 9, 25, 30, 31].contains(&i)) { return Op::Std(i); } }
     }
     fn atom(&mut self) -> Ex {
         match self.rng.below(100) {
             0..=39 => Ex::Col(self.plain_col()), 40..=64 => Ex::Val(self.value()), 65..=69 => Ex::Const(self.value()),
-            70..=74 => Ex::Kw(match self.rng.below(5) { 0 => Kw::Null, 1 => Kw::CurrentDate, 2 => Kw::CurrentTime, 3 => Kw::CurrentTimestamp, _ => Kw::Custom(self.rng.pick(&["DEFAULT", "MAXVALUE", "k w"]).to_string()) }),
+            70..=74 => Ex::Kw(match self.rng.below(5) { 0 => Kw::Null, 1 => Kw::CurrentDate, 2 => Kw::CurrentTime, 3 => Kw::CurrentTimestamp, _ => Kw::Custom(if self.plain { self.rng.pick(&["DEFAULT", "MAXVALUE"]).to_string() } else { self.rng.pick(&["DEFAULT", "MAXVALUE", "k w"]).to_string() }) }),
+            75..=81 if self.plain => Ex::Cust(self.rng.pick(&["now()", "x", "1", "NULL", "count(*)", "a.b", "'it''s'"]).to_string()),
             75..=81 => { let c = if self.tame { self.rng.pick(CLOSED_CUSTOMS).to_string() } else { self.rng.pick(CUSTOMS).to_string() }; if c.contains(['\'', '"', '`', '?', '$', '[']) { self.raw_quoted = true; } Ex::Cust(c) }
             82..=85 => { let n = self.rng.below(4) as usize; Ex::Vals((0..n).map(|_| self.value()).collect()) }
+            86..=88 if self.plain => Ex::Col(self.plain_col()),
             86..=88 => Ex::Col(ColRef::Star),
+            89..=91 if self.plain => Ex::Col(self.plain_col()),
             89..=91 => { let t = self.rng.pick(&["cw", "now()", "'a?b'", "1"]).to_string(); if t.contains('\'') { self.raw_quoted = true; } Ex::CustW(t, vec![]) }
             _ => Ex::Val(self.small_int()),
         }
@@ -706,9 +714,17 @@ impl Gen {
             50..=54 => Ex::Not(Box::new(self.ex(d))),
             55..=66 => self.func(d),
             67..=70 => { let n = self.rng.below(4) as usize; Ex::Tuple((0..n).map(|_| self.ex(d)).collect()) }
+            71..=76 if self.plain => {
+                if self.b != B::Sqlite && self.rng.chance(1, 3) { // x <cmp> ANY | SOME | ALL (sub-query)
+                    let o = Some(1 + self.rng.below(3) as u8); let cmp = *self.rng.pick(&[10u32, 11, 12, 13, 14, 15]);
+                    let (l, q) = (self.ex(d), self.query(d.min(2), false));
+                    Ex::Bin(Box::new(l), Op::Std(cmp), Box::new(Ex::Subq(o, Box::new(q))))
+                } else { let o = if self.rng.chance(1, 2) { None } else { Some(0u8) }; Ex::Subq(o, Box::new(self.query(d.min(2), false))) }
+            }
             71..=76 => { let o = match self.rng.below(8) { 0 | 1 | 2 => None, 3 | 4 => Some(0u8), x => if self.b == B::Sqlite && (self.tame || !self.rng.chance(1, 10)) { Some(0u8) } else { Some((x - 4) as u8) } }; Ex::Subq(o, Box::new(self.query(d.min(2), false))) }
             77..=82 => { let n = 1 + self.rng.below(3) as usize; let ws = (0..n).map(|_| (self.cond(d), self.ex(d))).collect(); let el = if self.rng.chance(1, 2) { Some(Box::new(self.ex(d))) } else { None }; Ex::Case(ws, el) }
             83..=86 => Ex::Enum(self.rng.pick(TYPES).to_string(), Box::new(self.ex(d))),
+            87..=92 if self.plain => self.atom(),
             87..=92 => self.template(depth),
             93..=95 => { let t = if self.tame { self.rng.pick(CLOSED_TYPES).to_string() } else { self.rng.pick(TYPES).to_string() }; Ex::Func(Fun::Std(11), false, vec![Ex::Bin(Box::new(self.ex(d)), Op::Std(25), Box::new(Ex::Cust(t)))]) }
             _ => { let (l, r) = (self.ex(d), self.ex(d)); Ex::Bin(Box::new(l), Op::Std(*self.rng.pick(&[0u32, 1, 0, 1, 10, 16])), Box::new(r)) }
@@ -716,7 +732,7 @@ impl Gen {
     }
     fn func(&mut self, d: u32) -> Ex {
         let f = match self.rng.below(12) {
-            0 => Fun::Custom(self.rng.pick(&["my_fn", "json_extract", "f g", "date"]).to_string()),
+            0 => Fun::Custom(if self.plain { self.rng.pick(&["my_fn", "json_extract", "date"]).to_string() } else { self.rng.pick(&["my_fn", "json_extract", "f g", "date"]).to_string() }),
             1 if self.b == B::Postgres || (!self.tame && self.rng.chance(1, 8)) => Fun::Pg(*self.rng.pick(&[0u32, 1, 2, 3, 4, 5, 6, 7, 8, 10, 11, 13, 14, 15])),
             _ => loop { let i = self.rng.below(19) as u32; if i != 11 { break Fun::Std(i); } },
         };
@@ -760,7 +776,7 @@ impl Gen {
         }
     }
     fn order_item(&mut self, depth: u32) -> OrderItem {
-        let kind = match self.rng.below(8) { 0 => { let n = self.rng.below(4) as usize; OrderKind::Field((0..n).map(|_| self.value()).collect()) } 1 | 2 | 3 => OrderKind::Desc, _ => OrderKind::Asc };
+        let kind = match self.rng.below(8) { 0 => { let n = if self.plain { 1 + self.rng.below(3) as usize } else { self.rng.below(4) as usize }; OrderKind::Field((0..n).map(|_| self.value()).collect()) } 1 | 2 | 3 => OrderKind::Desc, _ => OrderKind::Asc };
         OrderItem { e: self.ex(depth.min(1)), kind, nulls_first: match self.rng.below(5) { 0 => Some(true), 1 => Some(false), _ => None } }
     }
     fn orders(&mut self, depth: u32, p: u64) -> Vec<OrderItem> { if self.rng.chance(p, 10) { let n = 1 + self.rng.below(3) as usize; (0..n).map(|_| self.order_item(depth)).collect() } else { vec![] } }
@@ -777,7 +793,7 @@ impl Gen {
         WithC { recursive, search: if recursive && self.rng.chance(1, 2) { Some((self.rng.chance(1, 2), self.ex(1), self.name())) } else { None },
             cycle: if recursive && self.rng.chance(1, 2) { Some((self.ex(1), self.name(), self.name())) } else { None }, ctes }
     }
-    fn opt_with(&mut self, depth: u32, top: bool) -> Option<WithC> { if depth > 0 && self.rng.chance(1, if top { 5 } else { 12 }) { Some(self.with_clause(depth - 1)) } else { None } }
+    fn opt_with(&mut self, depth: u32, top: bool) -> Option<WithC> { if self.plain && !top { return None; } if depth > 0 && self.rng.chance(1, if top { 5 } else { 12 }) { Some(self.with_clause(depth - 1)) } else { None } }
     pub fn select(&mut self, depth: u32, top: bool) -> Select {
         let mut s = Select::default();
         s.with = self.opt_with(depth, top);
@@ -803,19 +819,23 @@ impl Gen {
         s.wher = self.holder(depth.min(2), true);
         if self.rng.chance(1, 4) { let n = 1 + self.rng.below(2) as usize; s.groups = (0..n).map(|_| self.ex(1)).collect(); }
         if self.rng.chance(1, 5) { s.having = Holder::Cond(self.cond(1)); }
-        if depth > 0 && self.rng.chance(1, 6) { let n = 1 + self.rng.below(2) as usize; for _ in 0..n { s.unions.push((self.rng.below(4) as u32, self.select(depth - 1, false))); } }
+        if depth > 0 && self.rng.chance(1, 6) { let n = 1 + self.rng.below(2) as usize; for _ in 0..n {
+            let mut u = self.select(depth - 1, false);
+            // SQLite writes the operands of a compound select bare: an operand with its own ORDER BY / LIMIT / set operation is not expressible
+            if self.plain && self.b == B::Sqlite { u.unions.clear(); u.orders.clear(); u.limit = None; u.offset = None; u.lock = None; u.window = None; u.with = None; }
+            s.unions.push((self.rng.below(4) as u32, u)); } }
         s.orders = self.orders(depth, 3);
         if self.rng.chance(1, 4) { s.limit = Some(*self.rng.pick(&[1u64, 10, 0, u64::MAX, 9223372036854775808])); }
-        if self.rng.chance(1, 6) { s.offset = Some(self.rng.below(100)); }
+        if self.rng.chance(1, 6) && !(self.plain && self.b != B::Postgres && s.limit.is_none()) { s.offset = Some(self.rng.below(100)); }
         if self.rng.chance(1, 10) { let nt = if self.rng.chance(1, 3) { 1 + self.rng.below(2) } else { 0 }; s.lock = Some(Lock { ty: self.rng.below(4) as u32, tables: (0..nt).map(|_| self.tname()).collect(), behavior: match self.rng.below(3) { 0 => Some(0), 1 => Some(1), _ => None } }); }
-        if depth > 0 && self.rng.chance(1, 12) { s.window = Some((self.name(), self.window(depth - 1))); }
+        if depth > 0 && self.rng.chance(1, 12) { s.window = Some((self.name(), self.window(depth - 1))); self.named_window = true; }
         s
     }
     fn returning(&mut self) -> Ret {
         match self.rng.below(8) { 0 => Ret::All, 1 => { let n = 1 + self.rng.below(2) as usize; Ret::Cols((0..n).map(|_| self.plain_col()).collect()) } 2 => { let n = 1 + self.rng.below(2) as usize; Ret::Exprs((0..n).map(|_| self.ex(1)).collect()) } _ => Ret::None }
     }
     pub fn insert(&mut self, depth: u32, top: bool) -> Insert {
-        let with = self.opt_with(depth, top);
+        let with = if self.plain { None } else { self.opt_with(depth, top) };
         let nc = self.rng.below(4) as usize;
         let columns: Vec<String> = (0..nc).map(|_| self.name()).collect();
         let source = match self.rng.below(10) {
@@ -828,28 +848,29 @@ impl Gen {
             let ncol = self.rng.below(3) as usize; let nex = if self.rng.chance(1, 4) { 1 } else { 0 };
             let mut targets: Vec<Target> = (0..ncol).map(|_| Target::Col(self.name())).collect();
             for _ in 0..nex { targets.push(Target::Expr(self.ex(1))); }
-            let action = match self.rng.below(6) { 0 => Action::None, 1 => Action::Nothing(vec![]), 2 => { let n = 1 + self.rng.below(2) as usize; Action::Nothing((0..n).map(|_| self.name()).collect()) }
+            let action = match self.rng.below(6) { 0 if !self.plain => Action::None, 0 | 1 => { if self.b == B::Mysql { self.do_nothing_no_keys = true; } Action::Nothing(vec![]) } 2 => { let n = 1 + self.rng.below(2) as usize; Action::Nothing((0..n).map(|_| self.name()).collect()) }
                 _ => { let n = 1 + self.rng.below(3) as usize; Action::Update((0..n).map(|_| if self.rng.chance(1, 2) { Upd::Col(self.name()) } else { Upd::Expr(self.name(), self.ex(depth.min(2))) }).collect()) } };
-            Some(OnC { targets, target_where: if self.rng.chance(1, 4) { Holder::Cond(self.cond(1)) } else { Holder::Empty }, action, action_where: if self.rng.chance(1, 4) { Holder::Cond(self.cond(1)) } else { Holder::Empty } })
+            Some(OnC { targets, target_where: if self.rng.chance(1, 4) { Holder::Cond(self.cond(1)) } else { Holder::Empty }, action, action_where: Holder::Empty }).map(|mut oc| { if (!self.plain || matches!(oc.action, Action::Update(_))) && self.rng.chance(1, 4) { oc.action_where = Holder::Cond(self.cond(1)); } oc })
         } else { None };
-        Insert { with, replace: self.rng.chance(1, 8), table: if self.rng.chance(19, 20) { Some(TRef::Named(self.tname())) } else { None }, columns, source, on_conflict, returning: self.returning(),
+        Insert { with, replace: self.rng.chance(1, 8), table: if self.plain || self.rng.chance(19, 20) { Some(TRef::Named(self.tname())) } else { None }, columns, source, on_conflict, returning: self.returning(),
             default_values: if self.rng.chance(1, 5) { Some(1 + self.rng.below(3) as u32) } else { None } }
     }
     pub fn update(&mut self, depth: u32, top: bool) -> Update {
         let n = 1 + self.rng.below(3) as usize;
         let nf = if self.rng.chance(1, 4) { 1 + self.rng.below(2) as usize } else { 0 };
-        Update { with: self.opt_with(depth, top), table: if self.rng.chance(19, 20) { Some(TRef::Named(if self.rng.chance(2, 3) { TName { parts: vec![self.name()], alias: None } } else { self.tname() })) } else { None },
-            sets: (0..n).map(|_| (self.name(), self.ex(depth.min(2)))).collect(), wher: self.holder(depth.min(2), true), orders: self.orders(depth, 2),
-            limit: if self.rng.chance(1, 5) { Some(self.rng.below(20)) } else { None }, returning: self.returning(), from: (0..nf).map(|_| self.tref(depth.min(1))).collect() }
+        if nf >= 2 && self.b == B::Mysql { self.multi_from_update = true; }
+        Update { with: if self.plain { None } else { self.opt_with(depth, top) }, table: if self.plain || self.rng.chance(19, 20) { Some(TRef::Named(if self.rng.chance(2, 3) { TName { parts: vec![self.name()], alias: None } } else { self.tname() })) } else { None },
+            sets: (0..n).map(|_| (self.name(), self.ex(depth.min(2)))).collect(), wher: self.holder(depth.min(2), true), orders: if self.plain && self.b == B::Postgres { vec![] } else { self.orders(depth, 2) },
+            limit: if !(self.plain && self.b == B::Postgres) && self.rng.chance(1, 5) { Some(self.rng.below(20)) } else { None }, returning: self.returning(), from: (0..nf).map(|_| self.tref(depth.min(1))).collect() }
     }
     pub fn delete(&mut self, depth: u32, top: bool) -> Delete {
-        Delete { with: self.opt_with(depth, top), table: if self.rng.chance(19, 20) { Some(TRef::Named(self.tname())) } else { None }, wher: self.holder(depth.min(2), true), orders: self.orders(depth, 2),
-            limit: if self.rng.chance(1, 5) { Some(self.rng.below(20)) } else { None }, returning: self.returning() }
+        Delete { with: if self.plain { None } else { self.opt_with(depth, top) }, table: if self.plain || self.rng.chance(19, 20) { Some(TRef::Named(self.tname())) } else { None }, wher: self.holder(depth.min(2), true), orders: if self.plain && self.b == B::Postgres { vec![] } else { self.orders(depth, 2) },
+            limit: if !(self.plain && self.b == B::Postgres) && self.rng.chance(1, 5) { Some(self.rng.below(20)) } else { None }, returning: self.returning() }
     }
     pub fn query(&mut self, depth: u32, top: bool) -> Query {
         match self.rng.below(20) {
             0 | 1 | 2 => Query::Ins(self.insert(depth, top)), 3 | 4 => Query::Upd(self.update(depth, top)), 5 | 6 => Query::Del(self.delete(depth, top)),
-            7 if depth > 0 => { let w = self.with_clause(depth - 1); Query::With(w, Box::new(self.query(depth - 1, false))) }
+            7 if depth > 0 && !self.plain => { let w = self.with_clause(depth - 1); Query::With(w, Box::new(self.query(depth - 1, false))) }
             _ => Query::Sel(self.select(depth, top)),
         }
     }
@@ -857,6 +878,7 @@ impl Gen {
     pub fn statement(&mut self, depth: u32) -> Query {
         match self.rng.below(10) {
             0 | 1 | 2 | 3 => Query::Sel(self.select(depth, true)), 4 | 5 => Query::Ins(self.insert(depth, true)), 6 => Query::Upd(self.update(depth, true)), 7 => Query::Del(self.delete(depth, true)),
+            _ if self.plain => { let w = self.with_clause(depth.saturating_sub(1)); Query::With(w, Box::new(Query::Sel(self.select(depth.saturating_sub(1), false)))) }
             _ => { let w = self.with_clause(depth.saturating_sub(1)); Query::With(w, Box::new(self.query(depth.saturating_sub(1), false))) }
         }
     }
